@@ -300,3 +300,67 @@ def exact_job(job):
         captured_in_plog = sum(len(x) for x in info['plog']) > len(info['log'])
     return tr, why, (len(info['log']), len(info['comm']), tuple(len(x) for x in info['comm']),
                      info['capmode'], captured_in_plog)
+
+
+# ----------------------------------------------------------------- BoundIO alone
+
+def boundio_job(job):
+    """job = (maxbytes, [chunk, ...]) -> ([buffer after each write], judge failure or None)
+    on the real loggers.BoundIO."""
+    from supervisor import loggers
+    mb, chunks = job
+    io = loggers.BoundIO(mb)
+    out = []
+    total = b''
+    why = None
+    for c in chunks:
+        io.write(c)
+        total += c
+        v = io.getvalue()
+        out.append(v)
+        if why is None and mb >= 0:
+            if not total.endswith(v):
+                why = 'buffer is not a trailing part of what was written'
+            elif len(v) > mb:
+                why = 'buffer longer than maxbytes'
+            elif len(total) <= mb and v != total:
+                why = 'data discarded although everything written fits in maxbytes'
+    return out, why
+
+
+# ----------------------------------------------------------------- byte-level cuts
+
+def cut_pairs(n, stride):
+    """Mirror of StreamCheck.cut_pairs."""
+    out = [(c, c) for c in range(1, n)]
+    for c1 in range(1, n):
+        for c2 in range(1, n):
+            if c1 < c2 and c1 % stride == 0 and c2 % stride == 0:
+                out.append((c1, c2))
+    return out
+
+
+def cut_frags(s, c1, c2):
+    if c1 == c2:
+        return [s[:c1], s[c1:]]
+    return [s[:c1], s[c1:c2], s[c2:]]
+
+
+def cuts_job(job):
+    """job = (stream, capmax, stride) -> (checksum, n runs, [(c1, c2, why)])"""
+    s, capmax, stride = job
+    total = 0
+    bad = []
+    pairs = cut_pairs(len(s), stride)
+    for i, (c1, c2) in enumerate(pairs):
+        frags = cut_frags(s, c1, c2)
+        try:
+            tr, info = _RIG.run(frags, capmax, channel='stdout' if i % 2 == 0 else 'stderr')
+        except HarnessFailure as e:
+            bad.append((c1, c2, str(e)))
+            continue
+        why = judge(s, info, _TOK[0], _TOK[1], capmax)
+        if why:
+            bad.append((c1, c2, why))
+        total += (i + 1) * wsum(tr)
+    return total, len(pairs), bad
